@@ -9,6 +9,7 @@ def dispatchSplicer (line : String) : String :=
   | "lf" :: args => handleLf args
   | "ext" :: args => handleExt args
   | "ws" :: args => handleWs args
+  | "mw" :: args => handleMw args
   | _ => "bad-op"
 
 partial def loopSplicer (h : IO.FS.Stream) (out : IO.FS.Stream) : IO Unit := do
